@@ -711,6 +711,8 @@ def monitor_case(ops, obs, which):
             if o.get("oo") == "0":
                 V("C14", "outside-write", f"{ops[i].strip()} changed bytes outside the buffer [{boff_},{boff_+bcap_})", i)
                 V("C01", "handle-writes-outside", f"{ops[i].strip()} through the handle [{boff_},{boff_+bcap_}) changed bytes outside it", i)
+                for p_ in ("C02", "C12"):
+                    V(p_, "handle-writes-outside", f"{ops[i].strip()} through the handle [{boff_},{boff_+bcap_}) changed bytes outside it: they belong to whoever holds the neighbouring range, on whatever thread, and nothing orders the two", i)
             if r == "InsufficientBuffer":
                 if nlen != blen:
                     V("C14", "failed-put-changes-len", f"{ops[i].strip()} failed but len {blen} -> {nlen}", i)
